@@ -496,6 +496,10 @@ func drawBlock(t *rapid.T) genBlock {
 		ProposerAddress: vi.set.Validators[rapid.IntRange(0, vi.set.Size()-1).Draw(t, "proposer")].Address,
 		ValidatorsHash:  vi.set.Hash(), NextValidatorsHash: vi.set.Hash(), ConsensusHash: drawHash(t, "conshash"), AppHash: drawHash(t, "apphash"),
 	}
+	if rapid.Bool().Draw(t, "set-changes-at-next-height") {
+		// a block that announces another validator set for the next height (the two hashes then differ)
+		hd.NextValidatorsHash = drawHash(t, "nextvalshash")
+	}
 	var commit *types.Commit
 	if h == 1 {
 		commit = types.NewCommit(0, 0, types.BlockID{}, nil) // what createProposalBlock uses at the initial height
